@@ -55,6 +55,9 @@ type TaskProg struct {
 	// MissingOpens: number of OpenFile calls on paths that do not exist, made first (each must fail, and must not
 	// cost anything that later calls need: descriptors, slots, locks).
 	MissingOpens int `json:"missing_opens,omitempty"`
+	// Spec: when set, the task does not read a document: its cue list is built in code from this description
+	// (values no reader of this library produces: a language nobody registered, one colour field only, ...).
+	Spec *corpus.ListSpec `json:"spec,omitempty"`
 }
 
 // c20Dir is the directory file steps use; set before a scenario starts, read-only while tasks run.
@@ -121,7 +124,9 @@ func execTaskAt(p TaskProg, tag string) (rec []string) {
 	var s *astisub.Subtitles
 	var err error
 	var pn string
-	if p.OpenExt != "" && c20Dir != "" {
+	if p.Spec != nil {
+		s = p.Spec.Build()
+	} else if p.OpenExt != "" && c20Dir != "" {
 		// the same document is the same file for every task of the scenario: independent callers may well open one file
 		path := inputPath(p)
 		if _, serr := os.Stat(path); serr != nil {
@@ -849,6 +854,14 @@ func genTask(r *prng.R, pool *docPool, idx int, theme string) TaskProg {
 	}
 	if d.Format == "ts" {
 		t.Plan.Medium = r.Pick("plain", "seekable", "bufio")
+	}
+	if r.Bool(0.12) && theme != "samefile" && theme != "missing" { // a list built in code instead of read from a document
+		l := corpus.GenList(r, 300000+idx)
+		if l.Meta != nil && r.Bool(0.7) {
+			l.Meta.Language = r.Pick("de", "pt", "de-AT", "pt-BR", "xx", "de-CH")
+		}
+		t.Spec, t.OpenExt = &l, ""
+		t.Name = "t" + strconv.Itoa(idx) + ":" + l.Name
 	}
 	t.Ops = genOps(r)
 	if theme != "" && r.Bool(0.4) { // themed scenarios: lists of one format are merged into each other more often
